@@ -149,6 +149,16 @@ func c08a(c *Ctx) {
 		for _, cj := range vc.cond.cs {
 			guarded = guarded && hasLit(cj, "-("+a+" == nil)")
 		}
+		// ... and iff: apart from walking the entries and from earlier scripts having been emitted
+		// without error, presence is the only condition
+		if guarded {
+			d := dropAtoms(vc.cond, func(at string) bool {
+				return isRangeTest(at) || (strings.Contains(at, "emitScriptStatement") && strings.HasSuffix(at, " == nil)")) || (strings.Contains(at, "emitInlineMapScript") || strings.Contains(at, "emitTableMapScript")) && strings.HasSuffix(at, " == nil)")
+			})
+			if !dnfEquiv(d, mkDNF([]string{"-(" + a + " == nil)"})) {
+				guarded = false
+			}
+		}
 		full := true
 		fnOf := map[*ssa.BasicBlock]*ssa.Function{}
 		for _, b := range vc.blocks {
